@@ -20,6 +20,9 @@ type C10Case struct {
 	ImpLine   string   `json:"imp_line"`   // ctx|minus
 	Body      string   `json:"body"`       // expr|stmt|decl
 	MetaClash string   `json:"meta_clash"` // "", identifier, expression: a metavariable named like the patch's package clause is declared (and unused)
+	Spelling  string   `json:"spelling,omitempty"` // how the file spells the guarded paths: "" (interpreted string) | raw | escaped
+	CLI       bool     `json:"cli,omitempty"`      // run through the command line (in place) instead of the library API
+	Seq       string   `json:"seq,omitempty"`      // two-change cases: what the earlier change does to the guarded clause
 	Name0     string   `json:"name0"`      // literal name used for path 0 on the patch side (different from / equal to the path's base name)
 	Patch     string   `json:"patch"`
 	File      string   `json:"file"`
@@ -39,7 +42,7 @@ func init() {
 	core.Register(&core.Property{
 		ID:    "C10",
 		Level: "model_checking",
-		Rule: "complete guard table: patch package clause {absent,same,other} x line kind x for each of 2 paths patch-side form {absent,unnamed,named,metavariable,dot,blank} x file-side form {absent,unnamed,same name,other name,dot,blank} x import layout {alone,group,two blocks} x import on context/minus line x body kind; the reference table is transcribed from the statement; every file contains the code pattern; " +
+		Rule: "complete guard table: patch package clause {absent,same,other} x line kind x for each of 2 paths patch-side form {absent,unnamed,named,metavariable,dot,blank} x file-side form {absent,unnamed,same name,other name,dot,blank} x import layout {alone,group,two blocks} x import on context/minus line x body kind; the reference table is transcribed from the statement; a slice of the table with the file spelling the guarded paths as raw and as escaped string literals; a slice of the table through the command line; 30 two-change patches (API and command line) in which an earlier (later) change establishes or destroys what the guarded change needs (package renamed, import added / dropped / replaced / named), guard evaluated when the change's turn comes; every file contains the code pattern; " +
 			"non-trivial = at least one guard present on the patch side",
 		Assumptions: []string{"a path imported twice under different names in one file is not a row of the stated table and is not generated"},
 		Bounds: func(tier string) map[string]any {
@@ -47,6 +50,7 @@ func init() {
 		},
 		NewCase: func() any { return &C10Case{} },
 		Gen:     c10Gen,
+		Setup:   cliSetup,
 		Run:     c10Run,
 	})
 }
@@ -96,6 +100,7 @@ func c10Guard(patchForm, fileForm string) bool {
 }
 
 func c10Gen(tier string, emit func(any)) {
+	c10SeqCases(emit)
 	patchForms := []string{"absent", "unnamed", "named", "metavar", "dot", "blank"}
 	fileForms := []string{"absent", "unnamed", "same", "other", "dot", "blank"}
 	for _, body := range c10Bodies(tier) {
@@ -124,6 +129,20 @@ func c10Gen(tier string, emit func(any)) {
 												c := &C10Case{PatchPkg: pkg, PkgLine: pkgLine, PatchImps: []string{p0, p1}, FileImps: []string{f0, f1}, Layout: layout, ImpLine: impLine, Body: body, MetaClash: clash, Name0: name0}
 												c10Render(c)
 												emit(c)
+												if clash == "" && name0 == "f" && layout == "group" && pkgLine == "ctx" {
+													c3 := *c
+													c3.CLI = true
+													emit(&c3)
+												}
+												if pkg == "" && clash == "" && name0 == "f" && layout != "blocks" {
+													// the same cell with the file spelling the paths as raw / escaped string literals
+													for _, sp := range []string{"raw", "escaped"} {
+														c2 := *c
+														c2.Spelling = sp
+														c10Render(&c2)
+														emit(&c2)
+													}
+												}
 											}
 										}
 									}
@@ -135,6 +154,67 @@ func c10Gen(tier string, emit func(any)) {
 			}
 		}
 	}
+}
+
+// c10SeqCases: a guard is evaluated when the change's turn comes, on the file as the earlier changes of the
+// same patch left it (an earlier change establishes or destroys what the later change's guard needs).
+func c10SeqCases(emit func(any)) {
+	file := func(pkg string, imports ...string) string {
+		s := "package " + pkg + "\n\n"
+		for _, im := range imports {
+			s += "import " + im + "\n"
+		}
+		return s + "\nvar v = foo(1)\n\nfunc g() {\n\tprefoo(1)\n\tfmt.Pre(1)\n}\n"
+	}
+	main := func(guard string) string { return "@@\n@@\n" + guard + "\n-foo(1)\n+mark(1)\n" }
+	type sc struct {
+		id, pre, guard, file string
+		expect             bool
+	}
+	renamePkg := "@@\n@@\n-package a\n+package b\n\n-prefoo(1)\n+predone(1)\n"
+	addImp := "@@\n@@\n+import \"x/y\"\n\n-prefoo(1)\n+y.Pre(1)\n"
+	addNamed := "@@\n@@\n+import yy \"x/y\"\n\n-prefoo(1)\n+yy.Pre(1)\n"
+	dropImp := "@@\n@@\n-import \"fmt\"\n\n-fmt.Pre(1)\n+pre(1)\n"
+	replImp := "@@\n@@\n-import \"fmt\"\n+import \"x/y\"\n\n-fmt.Pre(1)\n+y.Pre(1)\n"
+	nameImp := "@@\n@@\n-import \"fmt\"\n+import ff \"fmt\"\n\n-fmt.Pre(1)\n+ff.Pre(1)\n"
+	noop := "@@\n@@\n-nothing(1)\n+nothing(2)\n"
+	cases := []sc{
+		{"pkg-renamed/new-name", renamePkg, " package b", file("a", `"fmt"`), true},
+		{"pkg-renamed/old-name", renamePkg, " package a", file("a", `"fmt"`), false},
+		{"pkg-renamed/minus-line", renamePkg, "-package b\n+package c", file("a", `"fmt"`), true},
+		{"import-added/unnamed", addImp, " import \"x/y\"", file("a", `"fmt"`), true},
+		{"import-added/unnamed-first-import", addImp, " import \"x/y\"", "package a\n\nvar v = foo(1)\n\nfunc g() {\n\tprefoo(1)\n}\n", true},
+		{"import-added/guard-wants-name", addImp, " import yy \"x/y\"", file("a", `"fmt"`), false},
+		{"import-added-named/named", addNamed, " import yy \"x/y\"", file("a", `"fmt"`), true},
+		{"import-added-named/unnamed", addNamed, " import \"x/y\"", file("a", `"fmt"`), false},
+		{"import-dropped", dropImp, " import \"fmt\"", file("a", `"fmt"`), false},
+		{"import-replaced/old", replImp, " import \"fmt\"", file("a", `"fmt"`), false},
+		{"import-replaced/new", replImp, " import \"x/y\"", file("a", `"fmt"`), true},
+		{"import-named/unnamed-guard", nameImp, " import \"fmt\"", file("a", `"fmt"`), false},
+		{"import-named/named-guard", nameImp, " import ff \"fmt\"", file("a", `"fmt"`), true},
+		{"noop-before/holds", noop, " import \"fmt\"", file("a", `"fmt"`), true},
+		{"noop-before/fails", noop, " package b", file("a", `"fmt"`), false},
+	}
+	for _, c := range cases {
+		for _, packaging := range []string{"one-file"} {
+			_ = packaging
+			emit(&C10Case{Seq: c.id + "/cli", CLI: true, PatchImps: []string{"absent", "absent"}, FileImps: []string{"absent", "absent"}, Patch: c.pre + "\n" + main(c.guard), File: c.file, Expect: c.expect})
+			emit(&C10Case{Seq: c.id + "/guarded-first/cli", CLI: true, PatchImps: []string{"absent", "absent"}, FileImps: []string{"absent", "absent"}, Patch: main(c.guard) + "\n" + c.pre, File: c.file, Expect: c10GuardedFirst[c.id]})
+			emit(&C10Case{Seq: c.id, PatchImps: []string{"absent", "absent"}, FileImps: []string{"absent", "absent"}, Patch: c.pre + "\n" + main(c.guard), File: c.file, Expect: c.expect})
+			// the guarded change first: the later change must not matter for its guard
+			emit(&C10Case{Seq: c.id + "/guarded-first", PatchImps: []string{"absent", "absent"}, FileImps: []string{"absent", "absent"}, Patch: main(c.guard) + "\n" + c.pre, File: c.file, Expect: c10GuardedFirst[c.id]})
+		}
+	}
+}
+
+// expectation when the guarded change comes first: its guard is evaluated on the original file
+var c10GuardedFirst = map[string]bool{
+	"pkg-renamed/new-name": false, "pkg-renamed/old-name": true, "pkg-renamed/minus-line": false,
+	"import-added/unnamed": false, "import-added/unnamed-first-import": false, "import-added/guard-wants-name": false,
+	"import-added-named/named": false, "import-added-named/unnamed": false,
+	"import-dropped": true, "import-replaced/old": true, "import-replaced/new": false,
+	"import-named/unnamed-guard": true, "import-named/named-guard": false,
+	"noop-before/holds": true, "noop-before/fails": false,
 }
 
 func c10Render(c *C10Case) {
@@ -181,7 +261,15 @@ func c10Render(c *C10Case) {
 	var specs []string
 	for i, f := range c.FileImps {
 		if f != "absent" {
-			specs = append(specs, c10ImportSpec(f, c.name(i), c10Paths[i]))
+			sp := c10ImportSpec(f, c.name(i), c10Paths[i])
+			switch c.Spelling {
+			case "raw":
+				sp = strings.ReplaceAll(sp, "\"", "`")
+			case "escaped": // the same path with its second byte written as an escape
+				q := fmt.Sprintf("%q", c10Paths[i])
+				sp = strings.Replace(sp, q, fmt.Sprintf("\"%c\\x%02x%s\"", c10Paths[i][0], c10Paths[i][1], c10Paths[i][2:]), 1)
+			}
+			specs = append(specs, sp)
 		}
 	}
 	var s strings.Builder
@@ -226,12 +314,33 @@ func c10Run(env *core.Env, ci any) core.Outcome {
 			guards++
 		}
 	}
-	out.Nontrivial = guards > 0
+	out.Nontrivial = guards > 0 || c.Seq != ""
 	pf, err := patch.Parse("g.patch", []byte(c.Patch))
 	if err != nil {
 		return core.Outcome{Skip: "patch rejected: " + firstWords(err.Error(), 6)}
 	}
 	res, err := pf.Apply("a.go", []byte(c.File))
+	if c.CLI {
+		sb := newSandbox(env, "c10", map[string]string{"t/a.go": c.File, "g.patch": c.Patch})
+		r := sb.run(false, "t", []string{"-p", sb.path("g.patch"), "a.go"}, "")
+		res, err = []byte(sb.read("t/a.go")), nil
+		if r.Exit != 0 || r.Panic != "" {
+			err = fmt.Errorf("exit %d: %s %s", r.Exit, r.Stderr, r.Panic)
+		}
+		sb.remove()
+	}
+	if c.Seq != "" {
+		applied := bytes.Contains(res, []byte("mark(1)"))
+		out.Class = fmt.Sprintf("seq expect=%v applied=%v", c.Expect, applied)
+		if err != nil {
+			out.Violation = fmt.Sprintf("Apply failed in two-change case %s: %v\n--- patch:\n%s--- file:\n%s", c.Seq, err, c.Patch, c.File)
+			out.FindingKey = "apply-error"
+		} else if applied != c.Expect {
+			out.Violation = fmt.Sprintf("two-change case %s: the guarded change applied=%v, expected %v (guards are evaluated on the file as the earlier changes left it)\n--- patch:\n%s--- file:\n%s--- output:\n%s", c.Seq, applied, c.Expect, c.Patch, c.File, res)
+			out.FindingKey = "guard-evaluated-on-wrong-state:" + strings.SplitN(c.Seq, "/", 2)[0]
+		}
+		return out
+	}
 	cell := fmt.Sprintf("pkg=%s/%s clash=%s imps=%v(%s,name0=%s) file=%v", c.PatchPkg, c.PkgLine, c.MetaClash, c.PatchImps, c.ImpLine, c.Name0, c.FileImps)
 	if err != nil {
 		out.Violation = fmt.Sprintf("Apply failed in cell %s: %v", cell, err)
